@@ -281,6 +281,25 @@ exec_req(const vcase *vc)
 		std::string n = o->name;
 		vr_at(i, o->name);
 		int k = (int) vop_arg(o, 0, 0), a1 = (int) vop_arg(o, 1, 0), a2 = (int) vop_arg(o, 2, 0);
+		if (n == "rtime") { // rtime ctx ms : resend time of one context
+			if (k < 0 || k > 3 || !W.c[k].open || a1 < 1)
+				continue;
+			if (k == 0)
+				H_OK(nng_socket_set_ms(W.s, NNG_OPT_REQ_RESENDTIME, a1));
+			else
+				H_OK(nng_ctx_set_ms(W.c[k].ctx, NNG_OPT_REQ_RESENDTIME, a1));
+			continue;
+		}
+		if (n == "rtick") {
+			H_OK(nng_socket_set_ms(W.s, NNG_OPT_REQ_RESENDTICK, k > 0 && k <= 1000 ? k : 1000));
+			continue;
+		}
+		if (n == "wait") { // virtual time passes (resend timers fire)
+			vs_sleep(k > 0 && k <= 200 ? k : 1);
+			vs_settle();
+			req_after_settle(W);
+			continue;
+		}
 		if (n == "jam") {
 			// needs exactly one connection, nothing queued, and a known id sequence
 			bool busy = false;
@@ -648,7 +667,7 @@ genReqOp()
 	return gen::exec([]() {
 		std::ostringstream o;
 		int k = *gen::weightedElement<int>({{4, 0}, {3, 1}, {2, 2}, {1, 3}});
-		int t = *gen::weightedElement<int>({{10, 0}, {12, 1}, {6, 2}, {4, 3}, {3, 4}, {3, 5}, {1, 6}, {3, 7}, {2, 8}, {1, 9}});
+		int t = *gen::weightedElement<int>({{10, 0}, {12, 1}, {6, 2}, {4, 3}, {3, 4}, {3, 5}, {1, 6}, {3, 7}, {2, 8}, {1, 9}, {1, 10}});
 		switch (t) {
 		case 0: o << "send " << k; break;
 		case 1: o << "reply " << *pbt::range<int>(0, 1) << " " << *gen::weightedElement<int>({{8, 0}, {4, 1}, {2, 2}, {2, 3}, {2, 4}, {1, 5}, {3, 6}, {5, 7}, {5, 8}}) << " " << k; break;
@@ -663,6 +682,11 @@ genReqOp()
 			  << "\nreply 1 8 " << (k + 2) % 4;
 			break;
 		case 9: o << "unjam"; break;
+		case 10: // a request that is outstanding falls due for retransmission while the pipe is busy (it waits in the send queue
+			 // again), then its reply arrives, then the queue drains
+			o << "rtick 5\nrtime " << k << " 10\nsend " << k << "\njam\nsend " << (k + 1) % 4 << "\nsend " << (k + 2) % 4 << "\nwait " << *gen::element(15, 40) << "\nreply 0 0 " << k << "\nreply 1 0 " << k
+			  << "\nunjam\nrecv " << k << "\nrtime " << k << " 60000\nrtick 1000";
+			break;
 		}
 		return o.str();
 	});
